@@ -51,7 +51,8 @@ def main():
     for fn in args.input_files:
         # the name of an existing file is that file, whatever characters it contains; anything else is a pattern
         for file_in in ([fn] if os.path.isfile(fn) else glob.iglob(fn)):
-            if not os.path.isfile(file_in):
+            if os.path.isdir(file_in) or not os.path.exists(file_in):
+                # (a named pipe or a device is no regular file, but can be read)
                 logger.error('Could not open file "%s"' % (file_in))
                 continue
 
